@@ -124,16 +124,33 @@ SURVIVED_FIRST = {
     "C19-12": "the mid-interval rule was checked for 1 s intervals; with 3 s intervals a failed creation must not be retried within the interval (deterministic sparse3 write), and a file named for a mid-interval second is a violation",
     "C20-11": "one appender per logger in the crash kinds; kind console+file (two references with the default range) added",
     "C20-12": "nothing was logged after Destroy in a child; kind default-after-destroy added (the built-in console logger serves again)",
+    # round 7 (see ROUND7_first_attempt.jsonl; n=13 plain slips - 19 of 20 died at once -, n=14 subtle ones)
+    "C02-13": "logger names were lg0..lg3, all sorting before root; names on both sides of root added (zeta, a1, rootx, ro, svc)",
+    "C02-14": "tag lists were always written literally; a quarter now sit in a top-level property and the attribute is a ${...} placeholder (also for the faulty lists)",
+    "C03-14": "killed by the C11 check after its concurrent step got a cold start (all goroutines reach each fresh site in the same instant); listed under also_checks",
+    "C04-14": "killed by the C05 check (rolling-file logger, async, backlog at Destroy); listed under also_checks",
+    "C05-14": "no backlog took longer than a second to drain; TestC05_SlowDrain: 9 events at 400-500 ms each, direct and Refresh-built",
+    "C06-14": "the rolling-file async scenario ran the two discard policies and the default; explicit Block added (all items must arrive once the stalled worker is released)",
+    "C07-14": "killed by the C03 check (several goroutines through one layout instance); listed under also_checks",
+    "C09-14": "killed by the C07 and C08 checks once the hostile strings contained escaped text (six-character \\u0026 etc.) - the change is on the Reflect path; listed under also_checks",
+    "C10-14": "every appender reference took whatever the logger let through; references with a higher floor than the logger's range added (enabled for the logger: the generator runs once)",
+    "C13-14": "killed by the C19 check (failed creation, then the next boundary: the call hangs); listed under also_checks",
+    "C14-14": "the rotation interval was always one hour; intervals from 10 minutes to a week are generated",
+    "C15-14": "all tagged fields sat in exported structs; part of the probe plugin's fields now sit in an embedded package-private base",
+    "C17-14": "Parse was only ever called by one goroutine; TestC17_Concurrent parses generated batches from 2-16 goroutines",
+    "C18-14": "helper parts were well-formed segments; parts with misplaced or too many underscores added",
+    "C19-14": "killed by the C14 check (a file with an old name and a fresh modification time must survive); listed under also_checks",
+    "C20-14": "no write ever failed before the judged calls; file kinds now may begin with one write that fails for a transient reason (file-size limit lowered for one call)",
 }
 
 _first = None
 
 def first_attempt_survived(sid):
-    """Rounds 4 to 6 keep the raw first-attempt output; earlier rounds are listed in SURVIVED_FIRST only if they survived."""
+    """Rounds 4 to 7 keep the raw first-attempt output; earlier rounds are listed in SURVIVED_FIRST only if they survived."""
     global _first
     if _first is None:
         _first = {}
-        for f in ("ROUND4_first_attempt.jsonl", "ROUND5_first_attempt.jsonl", "ROUND6_first_attempt.jsonl"):
+        for f in ("ROUND4_first_attempt.jsonl", "ROUND5_first_attempt.jsonl", "ROUND6_first_attempt.jsonl", "ROUND7_first_attempt.jsonl"):
             fp = os.path.join(ROOT, "seeded", f)
             if os.path.exists(fp):
                 for line in open(fp):
